@@ -2,6 +2,8 @@ package main
 
 import (
 	"bytes"
+	"compress/gzip"
+	"io"
 	"os"
 	"path/filepath"
 	"reflect"
@@ -115,7 +117,21 @@ func ltRun(toks []string) string {
 	if bytes.HasPrefix(full, got) {
 		same = "1"
 	}
-	return fmt.Sprintf("ret=%s W=%d lines=%d total=%d delivered=%d same=%s leaked=%d", ret, ref.n, lines, len(full), len(got), same, leaked)
+	// with compression, "complete" means a finished gzip stream of exactly the plain document
+	complete := "na"
+	if gz && err == nil {
+		complete = "0"
+		refPlain := &faultWriter{k: -1}
+		pe, _ := laptimer.NewEncoder(refPlain)
+		if pe.Encode(db) == nil {
+			if zr, zerr := gzip.NewReader(bytes.NewReader(got)); zerr == nil {
+				if plain, rerr := io.ReadAll(zr); rerr == nil && bytes.Equal(plain, refPlain.buf.Bytes()) {
+					complete = "1"
+				}
+			}
+		}
+	}
+	return fmt.Sprintf("ret=%s W=%d lines=%d total=%d delivered=%d same=%s leaked=%d complete=%s", ret, ref.n, lines, len(full), len(got), same, leaked, complete)
 }
 
 func execLT(_ *config, op string) string {
